@@ -914,6 +914,9 @@ fn chk_unknown(asy: bool, with_meta: bool, ntiles: u64) -> Result<(), String> {
     Ok(())
 }
 
+fn c_push_refused(c: &mut Vec<String>, asy: bool, comp: Compression, es: &[pmtiles2::Entry]) {
+    c.push(format!("chk_ser_refuses {} {} {}", if asy { "async" } else { "sync" }, comp_tok(comp), entries_tok(es)));
+}
 pub fn gen_c19(rng: &mut Rng, quick: bool, st: &mut Stats) -> Vec<String> {
     let mut c: Vec<String> = Vec::new();
     // zero-length entry at every index of directories of several sizes
@@ -935,6 +938,21 @@ pub fn gen_c19(rng: &mut Rng, quick: bool, st: &mut Stats) -> Vec<String> {
             }
             st.bump("zero_length_positions");
         }
+    }
+    // the refused entry repeats the tile id of its neighbour (nothing may drop it before it is looked at)
+    for (k, dup_next) in [false, true, false].iter().enumerate() {
+        let base = valid_entries(rng, 3 + k, true, false, st);
+        let i = k % base.len();
+        let mut es = base.clone();
+        let mut z = base[i];
+        z.length = 0;
+        if *dup_next { es.insert(i, z) } else { es.insert(i + 1, z) }
+        for &comp in &ALL_COMP {
+            for asy in [false, true] {
+                c_push_refused(&mut c, asy, comp, &es);
+            }
+        }
+        st.bump("zero_length_entry_repeating_an_id");
     }
     // the refused entry carries extreme values in its other fields (the refusal itself must not compute with them)
     for (k, (id, off, run)) in [(u64::MAX, 7u64, 1u32), (u64::MAX - 3, 7, u32::MAX), (u64::MAX, u64::MAX, u32::MAX), (9, u64::MAX, 1), (u64::MAX - 1, 0, 2), (1 << 63, 1 << 63, 0)].iter().enumerate() {
@@ -1099,6 +1117,15 @@ pub fn run_chk(toks: &[&str]) -> Option<String> {
         ["chk_dir_refused", c, b] => {
             let (c, b) = (parse_comp(c), unhex_bytes(b));
             guard_chk(|| chk_dir_refused(c, &b))
+        }
+        ["chk_ser_refuses", mode, c, es] => {
+            // the serialisers refuse a list holding a zero-length entry, whatever else is odd about the list
+            let (asy, c, es) = (*mode == "async", parse_comp(c), parse_entries(es));
+            guard_chk(|| match std::panic::catch_unwind(|| crate::ops::dir_enc(asy, c, &es)) {
+                Err(_) => Err("serialiser panicked".into()),
+                Ok(Ok(_)) if c != Compression::Unknown => Err(format!("serialiser accepted a list with an entry of length 0 ({} async={asy})", comp_tok(c))),
+                _ => Ok(()),
+            })
         }
         ["chk_zero_len_dir", es] => {
             let es = parse_entries(es);
